@@ -9,8 +9,8 @@ From GoloopRun Require Export Pack_Bytes.
 Open Scope N_scope.
 
 (* everything the harness reads from one account: balance, IsContract, owner, state flags,
-   the value under every key of the key table (None = nil) *)
-Inductive aobs := AO (bal : Z) (isc : bool) (own : option bytes) (flg : N) (vals : list (option bytes)).
+   the deposits (GetDepositInfo), the value under every key of the key table (None = nil) *)
+Inductive aobs := AO (bal : Z) (isc : bool) (own : option bytes) (flg : N) (deps : list deposit) (vals : list (option bytes)).
 
 Inductive cop :=
 | cTouch (a : N)                                   (* GetAccountState only *)
@@ -20,6 +20,9 @@ Inductive cop :=
 | cInit (a : N) (owner : bytes) (r : bool)         (* InitContractAccount, observed result *)
 | cBlock (a : N) (b : bool)
 | cDisable (a : N) (b : bool)
+| cAddDep (a : N) (c : dctx) (v : Z) (ok : bool)                          (* AddDeposit; ok = nil error *)
+| cWithdraw (a : N) (c : dctx) (id : bytes) (v : option Z) (r : option (Z * Z))  (* WithdrawDeposit; None = error, else (amount, fee) *)
+| cPay (a : N) (c : dctx) (steps : Z) (paid byd : option Z)                (* PaySteps; None = nil *)
 | cLive (a : N) (o : aobs)                         (* read through GetAccountState *)
 | cPeek (a : N) (o : aobs)                         (* read through ws.GetAccountSnapshot *)
 | cObs (i : nat) (o : list (option aobs))          (* snapshot i, every account of the table; None = nil *)
@@ -61,9 +64,18 @@ Definition p_Z : parser Z :=                                                    
 Definition p_nat : parser nat := b <- p_byte ;; pret (N.to_nat b).
 Definition p_n2 : parser nat := a <- p_byte ;; b <- p_byte ;; pret (N.to_nat (a * 256 + b)).
 
+Definition p_deposit : parser deposit :=
+  t <- p_byte ;;
+  if t =? 1 then (i <- p_bytes ;; a <- p_Z ;; r <- p_Z ;; e <- p_Z ;; s <- p_Z ;; u <- p_Z ;; pret (DV1 i a r e s u))
+  else (r <- p_Z ;; pret (DV2 r)).
+
+Definition p_dctx : parser dctx :=
+  pr <- p_Z ;; h <- p_Z ;; tm <- p_Z ;; rt <- p_Z ;; tid <- p_bytes ;; on <- p_bool ;; pret (mkDC pr h tm rt tid on).
+
 Definition p_aobs (nk : nat) : parser aobs :=
-  bal <- p_Z ;; isc <- p_bool ;; own <- p_opt p_bytes ;; flg <- p_byte ;; vals <- p_rep nk (p_opt p_bytes) ;;
-  pret (AO bal isc own flg vals).
+  bal <- p_Z ;; isc <- p_bool ;; own <- p_opt p_bytes ;; flg <- p_byte ;;
+  nd <- p_nat ;; deps <- p_rep nd p_deposit ;; vals <- p_rep nk (p_opt p_bytes) ;;
+  pret (AO bal isc own flg deps vals).
 
 Definition p_cop (na nk : nat) : parser cop :=
   tag <- p_byte ;;
@@ -86,6 +98,10 @@ Definition p_cop (na nk : nat) : parser cop :=
   | 15 => i <- p_nat ;; pret (cReload i)
   | 16 => i <- p_nat ;; pret (cFromSnap i)
   | 17 => i <- p_nat ;; c <- p_byte ;; o <- p_rep na (p_opt (p_aobs nk)) ;; pret (cLoad i c o)
+  | 18 => a <- p_byte ;; c <- p_dctx ;; v <- p_Z ;; ok <- p_bool ;; pret (cAddDep a c v ok)
+  | 19 => a <- p_byte ;; c <- p_dctx ;; id <- p_bytes ;; v <- p_opt p_Z ;;
+          r <- p_opt (x <- p_Z ;; y <- p_Z ;; pret (x, y)) ;; pret (cWithdraw a c id v r)
+  | 20 => a <- p_byte ;; c <- p_dctx ;; st <- p_Z ;; pd <- p_opt p_Z ;; bd <- p_opt p_Z ;; pret (cPay a c st pd bd)
   | _ => fun _ => None
   end.
 
@@ -109,6 +125,8 @@ Definition out_eqb (a b : out) : bool :=
   | RVal x, RVal y => opt_bytes_eqb x y
   | RInfo c o f, RInfo c' o' f' => Bool.eqb c c' && opt_bytes_eqb o o' && (f =? f')
   | RBool x, RBool y => Bool.eqb x y
+  | RDeps x, RDeps y => deposits_eqb x y
+  | RDep x, RDep y => opt_eqb (fun p q => opt_eqb Z.eqb (fst p) (fst q) && opt_eqb Z.eqb (snd p) (snd q)) x y
   | _, _ => false
   end.
 
@@ -127,8 +145,8 @@ Section Decode.
   (* the reads that make up one account observation, with the expected results *)
   Definition reads (t : target) (o : aobs) : list (op * out) :=
     match o with
-    | AO bal isc own flg vals =>
-        (ORead t QBalance, RBal bal) :: (ORead t QInfo, RInfo isc own flg) ::
+    | AO bal isc own flg deps vals =>
+        (ORead t QBalance, RBal bal) :: (ORead t QInfo, RInfo isc own flg) :: (ORead t QDeposits, RDeps deps) ::
         map (fun kv => (ORead t (QValue (fst kv)), RVal (snd kv))) (combine keys vals)
     end.
 
@@ -151,6 +169,10 @@ Section Decode.
     | cInit a owner r => ([(OInitContract (ta a) owner, RBool r)], None)
     | cBlock a b => ([(OSetBlock (ta a) b, RUnit)], None)
     | cDisable a b => ([(OSetDisable (ta a) b, RUnit)], None)
+    | cAddDep a c v ok => ([(OAddDeposit (ta a) c v, RDep (if ok then Some (None, None) else None))], None)
+    | cWithdraw a c id v r =>
+        ([(OWithdrawDeposit (ta a) c id v, RDep (option_map (fun xy => (Some (fst xy), Some (snd xy))) r))], None)
+    | cPay a c st pd bd => ([(OPaySteps (ta a) c st, RDep (Some (pd, bd)))], None)
     | cLive a o => (reads (TLive (ta a)) o, None)
     | cPeek a o => (reads (TPeek (ta a)) o, None)
     | cObs i o => (obs_all i o, None)
